@@ -56,14 +56,36 @@ def mangled(attr: str) -> str:
     return attr[len("_RecordTensor"):] if attr.startswith("_RecordTensor__") else attr
 
 
+def selfcall(n) -> str | None:
+    """`self.<m>(...)` -> m"""
+    f = n.func if isinstance(n, ast.Call) else None
+    if isinstance(f, ast.Attribute) and isinstance(f.value, ast.Name) and f.value.id == "self":
+        return f.attr
+    return None
+
+
 class Tx:
+    """Translator of ONE method.  Class-level configuration (override in a subclass to translate another
+    class: see `regenerate_class`): SRC, CLS, METHODS, LEAN_TY, STATE_TY, HEADER, OUT (file name under Gen/),
+    NAMESPACE, DROPPED_PARAMS.  Vocabulary is extended by overriding `ex` / `call` / `subscript` /
+    `call_stmt` / `assign` / `branch` and falling back to `super()`."""
+    SRC = SRC
+    CLS = CLS
+    METHODS = METHODS
+    LEAN_TY = LEAN_TY
+    STATE_TY = "RT β"
+    DROPPED_PARAMS = DROPPED_PARAMS
+    OUT = "RingProg.lean"
+    NAMESPACE = "InfernoVerif.Gen.RingProg"
+    HEADER = None           # set below
+
     def __init__(self, name: str, fdef: ast.FunctionDef, sigs: dict):
         self.name, self.fdef, self.sigs = name, fdef, sigs
-        self.spec = METHODS[name]
+        self.spec = self.METHODS[name]
         self.fresh = 0
 
     def err(self, node, msg):
-        raise TranslateError(f"{SRC}::{CLS}.{self.name}:{getattr(node, 'lineno', '?')}",
+        raise TranslateError(f"{self.SRC}::{self.CLS}.{self.name}:{getattr(node, 'lineno', '?')}",
                              f"{msg}: {ast.unparse(node)[:140] if isinstance(node, ast.AST) else node}")
 
     # ------------------------------------------------------------------ expressions
@@ -321,8 +343,8 @@ class Tx:
             if kf == "fill" and kdt == "optdt" and set(kw) <= {"dtype", "device"}:
                 return f"(torchFull {fl} {nn} {sh} {dt})", "stack"
         # calls between methods
-        if isinstance(f, ast.Attribute) and isinstance(f.value, ast.Name) and f.value.id == "self" and f.attr in METHODS:
-            return self.method_call(n, f.attr, env), "call:" + METHODS[f.attr]["ret"]
+        if selfcall(n) in self.METHODS:
+            return self.method_call(n, f.attr, env), "call:" + self.METHODS[f.attr]["ret"]
         self.err(n, "unsupported call")
 
     def full_shape(self, node, env):
@@ -339,9 +361,9 @@ class Tx:
         given = self.kwargs(n, sig["order"])
         args = []
         for p in sig["order"]:
-            if p in DROPPED_PARAMS:
+            if p in self.DROPPED_PARAMS:
                 continue
-            kind = METHODS[callee]["params"][p]
+            kind = self.METHODS[callee]["params"][p]
             if p in given:
                 node = given[p]
             elif p in sig["defaults"]:
@@ -359,7 +381,7 @@ class Tx:
             if k != kind and not (kind == "optdt" and k == "none"):
                 self.err(node, f"argument {p} of {callee}: kind {k}, expected {kind}")
             args.append(v)
-        return f"(← RecordTensor_{callee} E self {' '.join(args)})".replace("  ", " ")
+        return f"(← {self.CLS}_{callee} E self {' '.join(args)})".replace("  ", " ")
 
     # ------------------------------------------------------------------ statements
     def terminates(self, stmts) -> bool:
@@ -439,7 +461,7 @@ class Tx:
     def call_stmt(self, c: ast.Call, env, alias, d, nxt) -> str:
         I = self.ind(d)
         f = c.func
-        if isinstance(f, ast.Attribute) and isinstance(f.value, ast.Name) and f.value.id == "self" and f.attr in METHODS:
+        if selfcall(c) in self.METHODS:
             v = self.method_call(c, f.attr, env)
             env2 = dict(env)
             return f"{I}let self := {v}.1\n" + nxt(self.refresh(env2, alias), alias, d)
@@ -631,16 +653,16 @@ class Tx:
 
     # ------------------------------------------------------------------ whole method
     def emit(self) -> str:
-        params = [p for p in self.sigs[self.name]["order"] if p not in DROPPED_PARAMS]
+        params = [p for p in self.sigs[self.name]["order"] if p not in self.DROPPED_PARAMS]
         if params != list(self.spec["params"]):
-            raise TranslateError(f"{SRC}::{CLS}.{self.name}", f"signature changed: {params} (expected {list(self.spec['params'])})")
+            raise TranslateError(f"{self.SRC}::{self.CLS}.{self.name}", f"signature changed: {params} (expected {list(self.spec['params'])})")
         env = {p: (lname(p), k) for p, k in self.spec["params"].items()}
-        ptxt = " ".join(f"({lname(p)} : {LEAN_TY[k]})" for p, k in self.spec["params"].items())
-        ret = LEAN_TY[self.spec["ret"]]
+        ptxt = " ".join(f"({lname(p)} : {self.LEAN_TY[k]})" for p, k in self.spec["params"].items())
+        ret = self.LEAN_TY[self.spec["ret"]]
         tail = (lambda e, a, dd: f"{self.ind(dd)}pure (self, ())\n") if self.spec["ret"] == "unit" else \
                (lambda e, a, dd: self.err(self.fdef, "falls off the end without returning"))
         body = self.block(list(self.fdef.body), env, {}, 1, tail)
-        return (f"def RecordTensor_{self.name} (E : Elem β) (self : RT β) {ptxt} : Except Err (RT β × {ret}) := do\n"
+        return (f"def {self.CLS}_{self.name} (E : Elem β) (self : {self.STATE_TY}) {ptxt} : Except Err ({self.STATE_TY} × {ret}) := do\n"
                 .replace("  :", " :") + body)
 
 
@@ -656,19 +678,26 @@ variable {β : Type}
 """
 
 
-def regenerate() -> dict:
-    src = (REPO / SRC).read_text()
+Tx.HEADER = HEADER
+
+
+def regenerate_class(T=Tx) -> dict:
+    """regenerates Gen/<T.OUT> from the methods T.METHODS of class T.CLS in T.SRC"""
+    src = (REPO / T.SRC).read_text()
     tree = ast.parse(src)
-    cls = next((n for n in tree.body if isinstance(n, ast.ClassDef) and n.name == CLS), None)
+    cls = next((n for n in tree.body if isinstance(n, ast.ClassDef) and n.name == T.CLS), None)
     if cls is None:
-        raise TranslateError(SRC, f"class {CLS} not found")
+        raise TranslateError(T.SRC, f"class {T.CLS} not found")
     fdefs = {}
     for n in cls.body:
-        if isinstance(n, ast.FunctionDef) and n.name in METHODS and not n.decorator_list:
-            fdefs[n.name] = n
-    missing = [m for m in METHODS if m not in fdefs]
+        if isinstance(n, ast.FunctionDef) and n.name in T.METHODS:
+            decs = [ast.unparse(d) for d in n.decorator_list]
+            want = T.METHODS[n.name].get("decorator")          # e.g. "dt.setter" to pick a property setter
+            if (want is None and not decs) or (want is not None and want in decs):
+                fdefs[n.name] = n
+    missing = [m for m in T.METHODS if m not in fdefs]
     if missing:
-        raise TranslateError(f"{SRC}::{CLS}", f"methods not found: {missing}")
+        raise TranslateError(f"{T.SRC}::{T.CLS}", f"methods not found: {missing}")
     sigs = {}
     for m, f in fdefs.items():
         a = f.args
@@ -677,19 +706,23 @@ def regenerate() -> dict:
         defaults = dict(zip(pos[len(pos) - len(a.defaults):], a.defaults))
         defaults.update({x.arg: dflt for x, dflt in zip(a.kwonlyargs, a.kw_defaults) if dflt is not None})
         sigs[m] = {"order": order, "defaults": defaults}
-    text = HEADER
+    text = T.HEADER
     info = {}
-    for m in METHODS:
+    for m in T.METHODS:
         seg = ast.get_source_segment(src, fdefs[m]) or ""
         sha = hashlib.sha256(seg.encode()).hexdigest()[:16]
-        text += f"\n/-- from `{SRC}` :: `{CLS}.{m}` (sha256 of source segment {sha}) -/\n" + Tx(m, fdefs[m], sigs).emit()
+        text += f"\n/-- from `{T.SRC}` :: `{T.CLS}.{m}` (sha256 of source segment {sha}) -/\n" + T(m, fdefs[m], sigs).emit()
         info[m] = sha
-    text += "\nend InfernoVerif.Gen.RingProg\n"
-    p = GEN / "RingProg.lean"
+    text += f"\nend {T.NAMESPACE}\n"
+    p = GEN / T.OUT
     changed = not p.exists() or p.read_text() != text
     if changed:
         p.write_text(text)
     return {"functions": info, "rewritten": changed}
+
+
+def regenerate() -> dict:
+    return regenerate_class(Tx)
 
 
 if __name__ == "__main__":
